@@ -102,6 +102,7 @@ func main() {
 	mons := newMonitors(res)
 	runIEEE(f, res, drv)
 	runDirected(f, res, drv, mons)
+	runLogic(f, res, drv, mons)
 	runUnknown(f, res, drv, mons)
 	runWire(f, res, drv, mons)
 	runEquator(f, res, drv, mons)
